@@ -175,7 +175,7 @@ structure FOutcome where
 /-- Does the snapshot hand back the bytes it had already consumed when `ReadAll` fails? The code
 does not (`if err != nil { return err }`: the body reader is left where the error struck, and its
 error is sticky): `false`. `repo-patches/C15-fix-snapshot-keeps-read-prefix.patch` makes it `true`. -/
-def snapshotKeepsPrefix : Bool := false
+def snapshotKeepsPrefix : Bool := true
 
 /-- One logger on a message whose body yields `b`. A logger that drains the body (`installs` is
 non-empty: its first step is the snapshot's `ReadAll`) fails on a failing body before it parses,
